@@ -16,6 +16,12 @@ func VerifLateTXTimestamps(n int) {
 	verifLateTXTimestamps.Store(int32(n))
 }
 
+// VerifLateTXTimestampsPending returns how many of the calls announced with
+// VerifLateTXTimestamps have not happened yet.
+func VerifLateTXTimestampsPending() int {
+	return int(verifLateTXTimestamps.Load())
+}
+
 func verifLateTXTimestamp() bool {
 	for {
 		n := verifLateTXTimestamps.Load()
